@@ -6,6 +6,7 @@ show that under the guard `Guard l` (no secret has timestamp 0 *and* the all-zer
 without a SHA-256 preimage of zero, and shown to be necessary) the result is the maximum by
 `(timestamp, id)` and hence a function of the *set* of secrets only, for every order.
 -/
+import P2.Extracted.C36
 import P2.Model.GroupSecret
 
 namespace P2.C36
@@ -389,5 +390,25 @@ example : ((insertAll Bundle.init [⟨3, 5⟩, ⟨7, 5⟩]).generate 9 8) = ⟨8
     order of insertion shows: why `c36_order_independent` carries that hypothesis. -/
 example : (insertAll Bundle.init [⟨3, 5⟩, ⟨4, 7⟩, ⟨3, 9⟩]).latest = some 3
     ∧ (insertAll Bundle.init [⟨3, 9⟩, ⟨4, 7⟩, ⟨3, 5⟩]).latest = some 4 := by decide
+
+/-! ## Tie to the current source text (DESIGN.md §4.2) -/
+
+/-- **The model is the source.** `./check` re-extracts these fragments from /repo on every run
+    (regular expressions anchored on the surrounding statements; a fragment that no longer matches is
+    itself a failure of the proof stage). They are the comparisons of `find_latest` (strictly later timestamp, or equal timestamp and strictly larger id, default id all-zero, initial timestamp 0 — `P2.GroupSecret.step`), `generate`'s `<=` bump to `latest + 1` with default 0 (`Bundle.generate`), and that `insert` / `remove` / `extend` recompute `latest` with `find_latest` (`Bundle.insert/remove/extend`), `latest()` looks the id up in the map (`Bundle.latestSecret`). Any edit of one of these
+    operators / operands / call shapes changes the extracted text and this theorem stops checking —
+    before a single input is generated. -/
+theorem c36_source_ops :
+    P2.Extracted.C36.findLatestCond = "latest_timestamp < timestamp || (latest_timestamp == timestamp && *id > latest_secret_id.unwrap_or([0; SHA256_DIGEST_SIZE]))"
+    ∧ P2.Extracted.C36.findLatestInitTs = 0
+    ∧ P2.Extracted.C36.findLatestInitId = "None"
+    ∧ P2.Extracted.C36.generateDefault = 0
+    ∧ P2.Extracted.C36.generateCond = "secret.timestamp() <= latest_timestamp"
+    ∧ P2.Extracted.C36.generateBump = "latest_timestamp + 1"
+    ∧ P2.Extracted.C36.insertBody = "y.secrets.insert(secret.id(), secret); y.latest = find_latest(&y.secrets); y"
+    ∧ P2.Extracted.C36.removeBody = "let result = y.secrets.remove(id); y.latest = find_latest(&y.secrets); (y, result)"
+    ∧ P2.Extracted.C36.extendBody = "y.secrets.extend(other.secrets); y.latest = find_latest(&y.secrets); y"
+    ∧ P2.Extracted.C36.latestAccessor = "self.latest.as_ref().and_then(|id| self.secrets.get(id))" :=
+  ⟨rfl, rfl, rfl, rfl, rfl, rfl, rfl, rfl, rfl, rfl⟩
 
 end P2.C36
